@@ -322,6 +322,29 @@ def verdict(tokens, start):
     return 'ambiguous' if l else 'reject'
 
 
+def verdict_lexing_aware(tokens, start):
+    """verdict(), but a rejected sequence is 'ambiguous' when a channel-name token (a/b, /b) that landed in an
+    expression reads equally well as a division (x /b  ==  x / b under hpl's contextual lexing)"""
+    v = verdict(tokens, start)
+    if v != 'reject':
+        return v
+    idxs = [i for i, t in enumerate(tokens) if len(t) > 1 and '/' in t and t[0] != '"']
+    for chosen in [[i] for i in idxs] + ([idxs] if len(idxs) > 1 else []):
+        alt = []
+        for i, t in enumerate(tokens):
+            if i in chosen:
+                for j, piece in enumerate(t.split('/')):
+                    if j:
+                        alt.append('/')
+                    if piece:
+                        alt.append(piece)
+            else:
+                alt.append(t)
+        if verdict(alt, start) != 'reject':
+            return 'ambiguous'
+    return 'reject'
+
+
 def selftest():
     def T(s):
         return s.split()
@@ -349,6 +372,7 @@ def selftest():
     assert verdict(T('globally : some b globally : no c'), 'file') == 'accept'
     assert verdict(T('globally : some b globally :'), 'file') == 'reject'
     assert verdict([], 'file') == 'reject'
+    assert verdict_lexing_aware(T('x /b > 1'), 'expression') == 'ambiguous'
     assert verdict(T('# id : a # id : b globally : no x'), 'property') == 'reject'
     assert verdict(T('# id : a globally : no x # id : a globally : no y'), 'file') == 'accept'
     assert verdict(T('( a or b ) causes ( c or d or e )'), 'pattern') == 'accept'
